@@ -116,8 +116,19 @@ def run(c):
             batch.append({"kind": "gate", "cfg": cfg, "badsig": False, "obs": obs})
             info.append(("random", cred))
             c.case(key=("random", repr(cfg), cred), sample={"cfg": cfg, "observed": obs} if n == 0 else None)
-        # ---- the callers against a handshake whose host-key signature does not verify
+        # ---- fixed: a host that IS known, but only with keys of other types than the one the server presents (the statement's
+        #      "only other key types"): refused whatever the missing-host-key policy would say (it must not even be asked)
         K = lambda t, i: {"t": t, "id": i}
+        for pol in ("AutoAdd", "Warning", "CustomAccept", "Reject"):
+            for tab, hashed, port in (("usr", False, "default"), ("sys", False, "default"), ("usr", True, "default"), ("usr", False, "other")):
+                ent = {"name": "h" if port == "default" else "[h]:p", "hashed": hashed, "key": K("rsa", 1)}
+                cfg = {"api": "sshclient", "expect": dict(cl.NOKEY), "sys": [ent] if tab == "sys" else [], "usr": [ent] if tab == "usr" else [],
+                       "policy": pol, "port": port, "server": [K("ed", 1)], "gss": "none", "prev": [], "loaded": True}
+                obs = cl.run_gate(cfg, str(c.work / "kh"), rnd, "password", universe)
+                batch.append({"kind": "gate", "cfg": cfg, "badsig": False, "obs": obs})
+                info.append(("other-type-only", "password"))
+                c.case(key=("othertype", pol, tab, hashed, port))
+        # ---- the callers against a handshake whose host-key signature does not verify
         base = {"api": "sshclient", "expect": dict(cl.NOKEY), "sys": [], "usr": [], "policy": "Reject", "port": "default",
                 "server": [K("ed", 1)], "gss": "none", "prev": [], "loaded": True}
         for upd in ({"api": "connect", "expect": K("ed", 1)}, {"api": "connect"}, {"usr": [{"name": "h", "hashed": False, "key": K("ed", 1)}]},
